@@ -23,7 +23,7 @@ def _norm(x):
 
 
 class World:
-    def __init__(self, seed, epoch=DEFAULT_EPOCH, msg_id_start=0, max_iterations=400_000):
+    def __init__(self, seed, epoch=DEFAULT_EPOCH, msg_id_start=0, max_iterations=20_000):
         self.ns = import_msmart()
         self._h = hashlib.sha256()
         self._kinds = hashlib.sha256()
